@@ -273,7 +273,7 @@ pub mod verif {
     use super::*;
 
     /// class of a `CodecError` plus its message
-    pub fn error_class(e: &CodecError) -> (&'static str, String) {
+    fn error_class(e: &CodecError) -> (&'static str, String) {
         match e {
             CodecError::RequestDecode(s) => ("RequestDecode", s.clone()),
             CodecError::ResponseDecode(s) => ("ResponseDecode", s.clone()),
